@@ -1,8 +1,292 @@
 import Got.Drv.Common
-/- driver for the atomics model family (properties C17): to be written -/
+import Got.Model.Atomics
+/-
+drv_atomics: one self-contained case per line (see harness/cmd/c17/main.go for the same grammar)
+
+  mx <initword> | <prog> / <prog> ... | <sched> .     prog: ops `T` (TryLock) `U` (Unlock if this thread holds)
+  fl <init>     | <prog> / ...        | <sched> .     ops `A<f>` `R<f>` `H<f>`   (AddFlag / RemoveFlag / HasFlag)
+  ai <init> <limit> | <prog> / ...    | <sched> .     ops `D<delta>`  (AddIf64 with predicate old+delta <= limit)
+  cnt real <held> <k>        Count of a real mutex: held or not, k goroutines parked in Lock
+  cnt raw <word>             Count of a raw state word
+
+  sched: thread ids (one controlled step each); for mx also `L` (a fresh goroutine calls the real Lock and runs until
+  it holds the mutex or is parked) and `R` (the real goroutine that holds the mutex calls Unlock). After the schedule
+  the live threads are stepped round-robin until all have finished.
+
+  output: one token per step `<tid>.<site>:<word after>` with `=<result>` appended when the step completed an op,
+  `<tid>.-` for a finished thread, `L:<word>` / `R:<word>`, then `end=<word>` (and `occ=<max holders>` for mx).
+-/
 namespace Got.Drv.Atomics
+open Got.Model.Atomics Got.Drv
+
+def showB (b : Bool) : String := if b then "1" else "0"
+
+/-- generic schedule interpreter over an engine -/
+structure Eng (σ : Type) where
+  site : σ → Nat → Option Nat
+  step : σ → Nat → σ × String
+  obs : σ → String
+  env : σ → String → Option σ
+  nthreads : σ → Nat
+
+def stepTok {σ} (e : Eng σ) (s : σ) (t : Nat) : σ × String :=
+  match e.site s t with
+  | none => (s, s!"{t}.-")
+  | some site =>
+    let (s', r) := e.step s t
+    (s', s!"{t}.{site}:{e.obs s'}{r}")
+
+def drain {σ} (e : Eng σ) : Nat → σ → List String → σ × List String
+  | 0, s, out => (s, out)
+  | fuel + 1, s, out =>
+    let ts := (List.range (e.nthreads s)).filter (fun t => (e.site s t).isSome)
+    if ts.isEmpty then (s, out)
+    else
+      let (s', out') := ts.foldl (fun (acc : σ × List String) t =>
+        match e.site acc.1 t with
+        | none => acc
+        | some _ => let (s2, tok) := stepTok e acc.1 t; (s2, tok :: acc.2)) (s, out)
+      drain e fuel s' out'
+
+def runSched {σ} (e : Eng σ) (s : σ) (sched : List String) : σ × List String :=
+  let (s, out) := sched.foldl (fun (acc : σ × List String) tok =>
+    if tok = "." then acc else
+    match tok.toNat? with
+    | some t => let (s2, o) := stepTok e acc.1 t; (s2, o :: acc.2)
+    | none =>
+      match e.env acc.1 tok with
+      | some s2 => (s2, s!"{tok}:{e.obs s2}" :: acc.2)
+      | none => (acc.1, s!"{tok}:-" :: acc.2)) (s, [])
+  let (s, out) := drain e 100000 s out
+  (s, out.reverse)
+
+/-! ### mutex engine -/
+
+inductive MOp | T | U deriving DecidableEq
+
+structure MSim where
+  m : MSt
+  progs : Array (List MOp)
+  parked : List Nat          -- real goroutines parked in Lock, oldest first
+  realHolder : Option Nat
+  nextG : Nat
+  maxocc : Nat
+
+def MSim.startHead (s : MSim) (t : Nat) : MSim :=
+  match s.progs[t]? with
+  | some (MOp.T :: _) => { s with m := stepM s.m (.tryStart t) }
+  | _ => s
+
+def MSim.pop (s : MSim) (t : Nat) : MSim :=
+  let s : MSim := { s with progs := s.progs.modify t List.tail }
+  s.startHead t
+
+def MSim.note (s : MSim) : MSim := { s with maxocc := max s.maxocc s.m.holders.length }
+
+/-- the real Unlock, run to quiescence: AddInt32(-1); unlockSlow's CAS; the woken waiter's acquiring CAS -/
+def MSim.unlockBy (s : MSim) (x : Nat) : MSim :=
+  let m1 := stepM s.m (.unlock x)
+  if m1.word != 0 && !isStarving m1.word then
+    let m2 := stepM m1 (.wake x)
+    if m2.word != m1.word then
+      match s.parked with
+      | h :: rest =>
+        { s with m := stepM m2 (.lockSlowCas h true false), parked := rest, realHolder := some h }
+      | [] => { s with m := m2 }
+    else { s with m := m2 }
+  else { s with m := m1 }
+
+def mxEng : Eng MSim where
+  nthreads s := s.progs.size
+  obs s := toString s.m.word.toInt
+  site s t :=
+    match s.progs[t]? with
+    | some (MOp.T :: _) =>
+      match s.m.pc t with
+      | .cas1 => some 8 | .load => some 9 | .cas2 _ => some 10 | .idle => some 0
+    | some (MOp.U :: _) => some 100
+    | _ => none
+  step s t :=
+    match s.progs[t]? with
+    | some (MOp.T :: _) =>
+      let act := match s.m.pc t with
+        | .cas1 => MAct.tryCas1 t | .load => MAct.tryLoad t | .cas2 _ => MAct.tryCas2 t | .idle => MAct.tryStart t
+      let s : MSim := MSim.note { s with m := stepM s.m act }
+      if s.m.pc t = .idle then
+        let r := match s.m.res t with | some b => "=" ++ showB b | none => "=?"
+        (s.pop t, r)
+      else (s, "")
+    | some (MOp.U :: _) =>
+      if t ∈ s.m.holders then ((s.unlockBy t).note.pop t, "=u") else (s.pop t, "=n")
+    | _ => (s, "")
+  env s tok :=
+    if tok = "L" then
+      let g := s.nextG
+      let s : MSim := { s with nextG := g + 1 }
+      if s.m.word = 0 then some (MSim.note { s with m := stepM s.m (.lockFast g), realHolder := some g })
+      else if !isLocked s.m.word && !isStarving s.m.word then
+        some (MSim.note { s with m := stepM s.m (.lockSlowCas g false false), realHolder := some g })
+      else some { s with m := stepM s.m (.lockSlowCas g false false), parked := s.parked ++ [g] }
+    else if tok = "R" then
+      match s.realHolder with
+      | some g =>
+        if g ∈ s.m.holders then some (MSim.note (MSim.unlockBy { s with realHolder := none } g)) else none
+      | none => none
+    else none
+
+def parseMOp : String → Option MOp
+  | "T" => some .T | "U" => some .U | _ => none
+
+/-! ### flag engine -/
+
+inductive FlOp | A (f : W64) | R (f : W64) | H (f : W64)
+
+structure FSim where
+  f : FSt
+  progs : Array (List FlOp)
+
+def FSim.startHead (s : FSim) (t : Nat) : FSim :=
+  match s.progs[t]? with
+  | some (.A f :: _) => { s with f := stepF s.f (.invoke t (.add f)) }
+  | some (.R f :: _) => { s with f := stepF s.f (.invoke t (.remove f)) }
+  | _ => s
+
+def FSim.pop (s : FSim) (t : Nat) : FSim :=
+  FSim.startHead { s with progs := s.progs.modify t List.tail } t
+
+def flEng : Eng FSim where
+  nthreads s := s.progs.size
+  obs s := toString s.f.val.toInt
+  env _ _ := none
+  site s t :=
+    match s.progs[t]? with
+    | some (.H _ :: _) => some 101
+    | some (_ :: _) =>
+      match s.f.pc t with
+      | .load _ => some 11 | .cas _ _ => some 12 | .idle => some 0
+    | _ => none
+  step s t :=
+    match s.progs[t]? with
+    | some (.H f :: _) => (s.pop t, "=" ++ showB (hasFlag s.f.val f))
+    | some (_ :: _) =>
+      let act := match s.f.pc t with
+        | .load _ => FAct.load t | _ => FAct.cas t
+      let s : FSim := { s with f := stepF s.f act }
+      if s.f.pc t = .idle then (s.pop t, "=r") else (s, "")
+    | _ => (s, "")
+
+def ofI64 (i : Int) : W64 := BitVec.ofInt 64 i
+
+def parseFlOp (w : String) : Option FlOp :=
+  match (w.drop 1).toString.toInt? with
+  | none => none
+  | some i =>
+    if w.startsWith "A" then some (.A (ofI64 i))
+    else if w.startsWith "R" then some (.R (ofI64 i))
+    else if w.startsWith "H" then some (.H (ofI64 i))
+    else none
+
+/-! ### AddIf64 engine -/
+
+structure ASim where
+  a : ASt
+  limit : Int
+  progs : Array (List W64)
+
+def ASim.startHead (s : ASim) (t : Nat) : ASim :=
+  match s.progs[t]? with
+  | some (d :: _) => { s with a := stepA (limitPred s.limit) s.a (.invoke t d) }
+  | _ => s
+
+def ASim.pop (s : ASim) (t : Nat) : ASim :=
+  ASim.startHead { s with progs := s.progs.modify t List.tail } t
+
+def aiEng : Eng ASim where
+  nthreads s := s.progs.size
+  obs s := toString s.a.val.toInt
+  env _ _ := none
+  site s t :=
+    match s.progs[t]? with
+    | some (_ :: _) =>
+      match s.a.pc t with
+      | .load _ => some 13 | .cas _ _ => some 14 | .idle => some 0
+    | _ => none
+  step s t :=
+    match s.progs[t]? with
+    | some (_ :: _) =>
+      let act := match s.a.pc t with
+        | .load _ => AAct.load t | _ => AAct.cas t
+      let s : ASim := { s with a := stepA (limitPred s.limit) s.a act }
+      if s.a.pc t = .idle then
+        (s.pop t, match s.a.res t with | some b => "=" ++ showB b | none => "=?")
+      else (s, "")
+    | _ => (s, "")
+
+def parseAOp (w : String) : Option W64 :=
+  if w.startsWith "D" then (w.drop 1).toString.toInt?.map ofI64 else none
+
+/-! ### lines -/
+
+def parseProgs {α} (p : String → Option α) (s : String) : Option (Array (List α)) :=
+  ((s.splitOn " / ").mapM (fun prog => (words prog).mapM p)).map List.toArray
+
+def startAll {σ} (start : σ → Nat → σ) (n : Nat) (s : σ) : σ := (List.range n).foldl start s
+
+/-- Count of a real mutex: `held` (a goroutine holds it), then k goroutines call Lock and park -/
+def realWord (held : Bool) (k : Nat) : MSt :=
+  let s := initM 0
+  let s := if held then stepM s (.lockFast 100) else s
+  (List.range k).foldl (fun s i => stepM s (.lockSlowCas (101 + i) false false)) s
+
+def runLine (line : String) : String :=
+  match line.splitOn " | " with
+  | [head, progs, sched] =>
+    let sched := words sched
+    match words head with
+    | ["mx", w] =>
+      match w.toInt?, parseProgs parseMOp progs with
+      | some w, some ps =>
+        let s : MSim := { m := initM (BitVec.ofInt 32 w), progs := ps, parked := [], realHolder := none, nextG := 100, maxocc := 0 }
+        let s := startAll MSim.startHead ps.size s
+        let (s, out) := runSched mxEng s sched
+        joinSp (out ++ [s!"end={s.m.word.toInt}", s!"occ={s.maxocc}"])
+      | _, _ => "bad-op"
+    | ["fl", v] =>
+      match v.toInt?, parseProgs parseFlOp progs with
+      | some v, some ps =>
+        let s : FSim := { f := initF (ofI64 v), progs := ps }
+        let s := startAll FSim.startHead ps.size s
+        let (s, out) := runSched flEng s sched
+        joinSp (out ++ [s!"end={s.f.val.toInt}"])
+      | _, _ => "bad-op"
+    | ["ai", v, lim] =>
+      match v.toInt?, lim.toInt?, parseProgs parseAOp progs with
+      | some v, some lim, some ps =>
+        let s : ASim := { a := initA (ofI64 v), limit := lim, progs := ps }
+        let s := startAll ASim.startHead ps.size s
+        let (s, out) := runSched aiEng s sched
+        joinSp (out ++ [s!"end={s.a.val.toInt}"])
+      | _, _, _ => "bad-op"
+    | _ => "bad-op"
+  | [single] =>
+    match words single with
+    | ["cnt", "real", h, k] =>
+      match h.toNat?, k.toNat? with
+      | some h, some k =>
+        let s := realWord (h != 0) k
+        s!"w={s.word.toInt} c={count s.word}"
+      | _, _ => "bad-op"
+    | ["cnt", "raw", w] =>
+      match w.toInt? with
+      | some w => let w : Word := BitVec.ofInt 32 w; s!"w={w.toInt} c={count w}"
+      | none => "bad-op"
+    | [] => ""
+    | _ => "bad-op"
+  | _ => "bad-op"
+
+def step (_ : Unit) (line : String) : Unit × String := ((), runLine line)
 
 def main (_args : List String) : IO Unit := do
-  IO.eprintln "drv_atomics: not implemented"
+  lineLoop (← IO.getStdin) (← IO.getStdout) step ()
 
 end Got.Drv.Atomics
